@@ -91,6 +91,17 @@ def val_debugdep(ctx: Ctx) -> RuleResult:
     first = f.node.body[0] if not isinstance(f.node.body[0], ast.Expr) else f.node.body[1]
     gate = isinstance(first, ast.If) and isinstance(first.body[0], ast.Return)
     r.ob(gate, {"skipped only when": norm_src(first.test) if gate else None})
+    # the conditions under which the loop is reached say 'a description is in progress' and nothing else
+    conds = reach_conditions(f.node, lp)
+    if conds is not None:
+        extra = [(c_, pol_) for c_, pol_ in conds if "in_dag_description" not in norm_src(c_)]
+        r.ob(not extra, {"validation reached under": [("" if pol_ else "not ") + norm_src(c_) for c_, pol_ in conds]})
+        if extra:
+            c_, pol_ = extra[0]
+            r.violate(f"{f.short}: the dependency validation is skipped on a condition other than 'no description in progress'", f.loc(lp),
+                      "nodes built under that condition (e.g. the nodes spliced from a nested DAG, which take outer values - a debug node's "
+                      "result, an outer activation - as arguments) are never validated: a production node depending on a debug node is "
+                      "accepted and its value depends on RUN_DEBUG_NODES", ("" if pol_ else "not ") + norm_src(c_))
     # __post_init__ calls it
     pi = ctx.own_method("LazyExecNode", "__post_init__")
     okc = pi is not None and any(q == f.qualname for _, q in ctx.calls_in(pi))
@@ -301,6 +312,31 @@ def val_compose(ctx: Ctx) -> RuleResult:
         r.violate("BaseDAG.compose: a needed DAG input that is not provided is not refused", amd.loc(), "ValueError expected", None)
     okdi = len(di) == 1 and "not in self.results" in norm_src(di[0].value)
     r.ob(okdi, {"inputs without default": norm_src(di[0].value) if di else None})
+    # the walk goes on from EVERY node it collects (work list or recursion): the dependencies of a node whose value is already
+    # known (a setup result) are nodes of the composed DAG too - its references name them
+    adds = [n for n in iter_own_nodes(amd.node) if isinstance(n, ast.Expr) and isinstance(n.value, ast.Call) and isinstance(n.value.func, ast.Attribute)
+            and n.value.func.attr == "add" and n.value.args]
+    for ad in adds:
+        item = norm_src(ad.value.args[0])
+        conts = [n for n in iter_own_nodes(amd.node) if isinstance(n, ast.Expr) and isinstance(n.value, ast.Call) and n.value.args
+                 and norm_src(n.value.args[0]) == item
+                 and ((isinstance(n.value.func, ast.Attribute) and n.value.func.attr in ("append", "appendleft", "push", "extend") and n is not ad)
+                      or dotted(n.value.func) == amd.name)]
+        if not conts:
+            continue
+        ca = reach_conditions(amd.node, ad)
+        for cn in conts:
+            cc = reach_conditions(amd.node, cn)
+            if ca is None or cc is None:
+                continue
+            sa = {(norm_src(t_), v_) for t_, v_ in ca}
+            extra = [(norm_src(t_), v_) for t_, v_ in cc if (norm_src(t_), v_) not in sa]
+            r.ob(not extra, {"walk continues from every collected node": not extra, "extra conditions": extra})
+            if extra:
+                r.violate(f"BaseDAG.compose: a collected node is not walked further when {('' if extra[0][1] else 'not ') + extra[0][0]}", amd.loc(cn),
+                          "the node is copied into the composed DAG with references to dependencies that were never collected: calling "
+                          "the composed DAG raises KeyError in the scheduler (e.g. a setup node with an argument, composed after setup ran)",
+                          extra)
     # `inputs=...` stands for EVERY argument of the original DAG (defaulted ones included)
     ell = [n for n in iter_own_nodes(f.node) if isinstance(n, ast.Compare) and len(n.ops) == 1 and isinstance(n.ops[0], (ast.Is, ast.Eq))
            and isinstance(n.comparators[0], ast.Constant) and n.comparators[0].value is Ellipsis]
@@ -384,6 +420,32 @@ def val_compose_anc(ctx: Ctx) -> RuleResult:
                   "returns inconsistent outputs", src)
     elif not closure:
         raise Undecided("compose: ancestor set definition not recognised: " + src)
+    return r
+
+
+def val_confkeys(ctx: Ctx) -> RuleResult:
+    """The top-level keys of a configuration are independent: `max_concurrency` is applied whether or not `nodes` is present."""
+    r = RuleResult("VAL-CONFKEYS")
+    f = ctx.method("BaseDAG", "config_from_dict")
+    conf = f.node.args.args[1].arg if len(f.node.args.args) > 1 else None
+    r.require(conf is not None, "config_from_dict: configuration parameter not found")
+
+    def key_test(t: ast.AST):
+        if isinstance(t, ast.Compare) and len(t.ops) == 1 and isinstance(t.ops[0], (ast.In, ast.NotIn)) and isinstance(t.left, ast.Constant) \
+                and isinstance(t.left.value, str) and dotted(t.comparators[0]) == conf:
+            return t.left.value
+        return None
+
+    tests = [n for n in iter_own_nodes(f.node) if isinstance(n, ast.If) and key_test(n.test) is not None]
+    r.require(len(tests) >= 2, f"config_from_dict: presence tests of top-level keys: {len(tests)} found (nodes, max_concurrency)")
+    for n in tests:
+        k = key_test(n.test)
+        conds = reach_conditions(f.node, n) or []
+        others = sorted({key_test(c) for c, pol in conds if key_test(c) not in (None, k)})
+        r.ob(not others, {"key": k, "applied only when these other keys are present too": others})
+        if others:
+            r.violate(f"BaseDAG.config_from_dict: '{k}' is applied only when {others} is configured as well", f.loc(n),
+                      f"a configuration that holds '{k}' alone (dict, JSON or YAML) is silently ignored: the DAG keeps its old value", norm_src(n.test))
     return r
 
 
@@ -541,6 +603,22 @@ def val_synthseq(ctx: Ctx) -> RuleResult:
                 r.violate(f"{f.short}: a {target.split('.')[-1]} is created without is_sequential", f.loc(call),
                           "the node takes the environment default (TAWAZI_IS_SEQUENTIAL): with the default True the hidden node is a "
                           "barrier - independent nodes the user declared non-sequential no longer run concurrently", norm_src(call)[:120])
+                continue
+            # the other direction: a node that runs a function handed in by the caller (the decorator, the operator nodes) is a node
+            # of the user's computation - a constant here overrides the environment default the user configured
+            fn_kw = next((k for k in call.keywords if k.arg == "exec_function"), None)
+            params = set()
+            for g in ctx.P.enclosing_chain(f):
+                a_ = g.node.args
+                params |= {x.arg for x in a_.posonlyargs + a_.args + a_.kwonlyargs}
+            if fn_kw is not None and isinstance(fn_kw.value, ast.Name) and fn_kw.value.id in params:
+                const = isinstance(kw.value, ast.Constant)
+                r.ob(not const, {"runs a caller-supplied function": f.short, "is_sequential": norm_src(kw.value)})
+                if const:
+                    r.violate(f"{f.short}: a node that runs a caller-supplied function is created with the constant is_sequential={norm_src(kw.value)}",
+                              f.loc(call), "with TAWAZI_IS_SEQUENTIAL=true every node is sequential unless declared otherwise; this node (an "
+                              "operator on results, or a decorated function) ignores the configured default and overlaps other nodes",
+                              norm_src(call)[:120])
     r.require(n >= 3, f"only {n} constructions of library nodes found")
     return r
 
@@ -667,7 +745,7 @@ def val_confatomic(ctx: Ctx) -> RuleResult:
 
 
 RULES = {
-    "VAL-POSTINIT": val_postinit, "VAL-CONFATOMIC": val_confatomic,
+    "VAL-CONFKEYS": val_confkeys, "VAL-POSTINIT": val_postinit, "VAL-CONFATOMIC": val_confatomic,
     "VAL-COMPOSE-OVERLAP": val_compose_overlap,
     "VAL-SYNTHSEQ": val_synthseq,
     "VAL-MAXC": val_maxc, "VAL-DEBUGDEP": val_debugdep, "VAL-SETUPDEP": val_setupdep, "VAL-SETUPARG": val_setuparg,
